@@ -168,6 +168,10 @@ func (l jsonList) patch(pathBehind, pathAhead path, oldValues, newValues []JsonN
 		// Append at end of list
 		i = len(l)
 	}
+	if i < 0 {
+		return nil, fmt.Errorf(
+			"invalid path element %v: negative list index", i)
+	}
 
 	switch {
 	case isVoid(newValue):
